@@ -521,21 +521,39 @@ func (x *Exec) havocLoc(st *State, env *specEnv, loc string, c *Contract) {
 	case mapLoc:
 		x.havocKeyPrefix(st, "map:")
 	case streamLoc:
+		// only the object of the dynamic type the interface value actually holds is affected
 		for _, tn := range []string{"bufBitStream", "randomBitStream"} {
 			nt := x.namedType(tn)
 			su := under(nt).(*types.Struct)
-			// element arrays of the recording first (at the arrays the stream currently points to)
+			cond := tTrue
+			if l.iface.S != "" {
+				tag := fmt.Sprint(x.typeTag(types.NewPointer(nt)))
+				cond = st.def("isStream", Term{S: "(and ((_ is any_ref) " + l.iface.S + ") (= (any_ref_tag " + l.iface.S + ") " + tag + "))", Sort: sBool})
+			}
 			rb := st.embRef(tn, "recordedBits", l.ref)
-			rbt := x.namedType("recordedBits")
-			rsu := under(rbt).(*types.Struct)
+			rsu := under(x.namedType("recordedBits")).(*types.Struct)
 			for i := 0; i < rsu.NumFields(); i++ {
 				if sl, ok := under(rsu.Field(i).Type()).(*types.Slice); ok {
 					cur := st.loadField(nil, rb, rsu, "recordedBits", i).(*SliceV)
-					st.havocElems(cur.Arr, sl.Elem())
+					keys, sorts, _ := st.elemKeys(sl.Elem())
+					for k := range keys {
+						E := st.elemArr(nil, keys[k], sorts[k])
+						fr := st.fresh("hv_"+keys[k], sArr(sBV(64), sorts[k]), nil)
+						st.x.symCounter++
+						name := fmt.Sprintf("E_%s!%d", sanitize(keys[k]), st.x.symCounter)
+						st.emit("(define-fun " + name + " () " + E.Sort + " " + tIte(cond, tStore(E, cur.Arr, fr), E).S + ")")
+						st.heap[keys[k]] = Term{S: name, Sort: E.Sort}
+					}
 				}
 			}
 			for i := 0; i < su.NumFields(); i++ {
-				st.havocField(l.ref, su, tn, i)
+				oldv := st.loadField(nil, l.ref, su, tn, i)
+				nv := st.freshVal(su.Field(i).Type(), "hv_"+tn+"_"+su.Field(i).Name())
+				mv, ok := x.mergeVal(st, cond, nv, oldv, "hvc")
+				if !ok {
+					mv = nv
+				}
+				st.storeField(l.ref, su, tn, i, mv)
 			}
 		}
 	default:
